@@ -23,8 +23,26 @@ import (
 	"encoding/json"
 	"fmt"
 	"math/big"
+	"math/rand/v2"
 	"strings"
+
+	"github.com/zmap/zcrypto/encoding/asn1"
+	"github.com/zmap/zcrypto/x509/pkix"
+	"github.com/zmap/zcrypto/x509/revocation/google"
+	"github.com/zmap/zcrypto/x509/revocation/mozilla"
 )
+
+// Ways of handing a model to the verifier. The exported structs are plain data
+// and VerificationOptions accepts any *CRLSet / *OneCRL, so a set need not come
+// straight from Parse.
+const (
+	supplyWire    = iota // encode, then google.Parse / mozilla.Parse
+	supplyStructs        // exported structs built directly, entries in model order
+	supplyMerged         // model split in two, both parsed, second merged into the first by appending
+	nSupplyModes
+)
+
+var supplyName = []string{"wire+Parse", "hand-built structs", "two parsed sets merged"}
 
 type crlSetList struct {
 	Hash    [32]byte
@@ -179,4 +197,203 @@ func serialBytes(v int64, leadingZero bool) []byte {
 		b = append([]byte{0}, b...)
 	}
 	return b
+}
+
+// ---- supplying a CRLSet model ------------------------------------------------------------
+
+// handBuilt constructs the exported structs the way Parse fills them (hex issuer hash keys,
+// big.Int serials), keeping the model's entry order.
+func (m *crlSetModel) handBuilt() *google.CRLSet {
+	cs := &google.CRLSet{Version: "verif", IssuerLists: map[string]*google.IssuerList{}, Sequence: m.Sequence,
+		NumParents: m.NumParents, BlockedSPKIs: append([]string(nil), m.Blocked...)}
+	for _, l := range m.Lists {
+		h := hex.EncodeToString(l.Hash[:])
+		il := &google.IssuerList{SPKIHash: h}
+		for _, sb := range l.Serials {
+			il.Entries = append(il.Entries, &google.Entry{SerialNumber: new(big.Int).SetBytes(sb)})
+		}
+		cs.IssuerLists[h] = il
+	}
+	return cs
+}
+
+// split cuts every serial list and the blocked list at a random point.
+func (m *crlSetModel) split(rng *rand.Rand) (a, b *crlSetModel) {
+	a = &crlSetModel{Sequence: m.Sequence, NumParents: m.NumParents}
+	b = &crlSetModel{Sequence: m.Sequence + 1, NumParents: m.NumParents}
+	cut := rng.IntN(len(m.Blocked) + 1)
+	a.Blocked = append(a.Blocked, m.Blocked[:cut]...)
+	b.Blocked = append(b.Blocked, m.Blocked[cut:]...)
+	for _, l := range m.Lists {
+		k := rng.IntN(len(l.Serials) + 1)
+		if k > 0 || len(l.Serials) == 0 {
+			a.Lists = append(a.Lists, crlSetList{Hash: l.Hash, Serials: l.Serials[:k]})
+		}
+		if k < len(l.Serials) {
+			b.Lists = append(b.Lists, crlSetList{Hash: l.Hash, Serials: l.Serials[k:]})
+		}
+	}
+	return
+}
+
+// mergeCRLSets appends b's content to a (a is modified and returned).
+func mergeCRLSets(a, b *google.CRLSet) *google.CRLSet {
+	a.BlockedSPKIs = append(a.BlockedSPKIs, b.BlockedSPKIs...)
+	for k, bl := range b.IssuerLists {
+		if al := a.IssuerLists[k]; al != nil {
+			al.Entries = append(al.Entries, bl.Entries...)
+		} else {
+			a.IssuerLists[k] = bl
+		}
+	}
+	return a
+}
+
+func (m *crlSetModel) supply(mode int, rng *rand.Rand) (*google.CRLSet, error) {
+	switch mode {
+	case supplyStructs:
+		return m.handBuilt(), nil
+	case supplyMerged:
+		am, bm := m.split(rng)
+		a, err := google.Parse(am.encode(), "verif")
+		if err != nil {
+			return nil, fmt.Errorf("google.Parse: %v", err)
+		}
+		b, err := google.Parse(bm.encode(), "verif")
+		if err != nil {
+			return nil, fmt.Errorf("google.Parse: %v", err)
+		}
+		return mergeCRLSets(a, b), nil
+	}
+	lib, err := google.Parse(m.encode(), "verif")
+	if err != nil {
+		return nil, fmt.Errorf("google.Parse: %v", err)
+	}
+	return lib, nil
+}
+
+// ---- supplying a OneCRL model --------------------------------------------------------------
+
+func decodeName(der []byte) (*pkix.Name, error) {
+	var rdn pkix.RDNSequence
+	if _, err := asn1.Unmarshal(der, &rdn); err != nil {
+		return nil, err
+	}
+	n := new(pkix.Name)
+	n.FillFromRDNSequence(&rdn)
+	return n, nil
+}
+
+// handBuilt constructs the exported structs the way Parse fills them (issuer lists keyed by
+// Name.String(), blocked subject/key pairs), keeping the model's record order.
+func (m *oneCRLModel) handBuilt() (*mozilla.OneCRL, error) {
+	oc := &mozilla.OneCRL{IssuerLists: map[string]*mozilla.IssuerList{}, Blocked: []*mozilla.SubjectAndPublicKey{}}
+	for i, r := range m.Records {
+		if r.Blocked {
+			n, err := decodeName(r.SubjectDER)
+			if err != nil {
+				return nil, err
+			}
+			oc.Blocked = append(oc.Blocked, &mozilla.SubjectAndPublicKey{RawSubject: r.SubjectDER, Subject: n, PubKeyHash: r.PubKeyHash})
+			continue
+		}
+		n, err := decodeName(r.IssuerDER)
+		if err != nil {
+			return nil, err
+		}
+		e := &mozilla.Entry{ID: fmt.Sprintf("rec-%d", i), Enabled: true, Issuer: n, SerialNumber: new(big.Int).SetBytes(r.Serial)}
+		key := n.String()
+		if il := oc.IssuerLists[key]; il != nil {
+			il.Entries = append(il.Entries, e)
+		} else {
+			oc.IssuerLists[key] = &mozilla.IssuerList{Issuer: n, Entries: []*mozilla.Entry{e}}
+		}
+	}
+	return oc, nil
+}
+
+func mergeOneCRL(a, b *mozilla.OneCRL) *mozilla.OneCRL {
+	a.Blocked = append(a.Blocked, b.Blocked...)
+	for k, bl := range b.IssuerLists {
+		if al := a.IssuerLists[k]; al != nil {
+			al.Entries = append(al.Entries, bl.Entries...)
+		} else {
+			a.IssuerLists[k] = bl
+		}
+	}
+	return a
+}
+
+func (m *oneCRLModel) supply(mode int, rng *rand.Rand) (*mozilla.OneCRL, error) {
+	switch mode {
+	case supplyStructs:
+		return m.handBuilt()
+	case supplyMerged:
+		k := rng.IntN(len(m.Records) + 1)
+		a, err := mozilla.Parse((&oneCRLModel{Records: m.Records[:k]}).encode())
+		if err != nil {
+			return nil, fmt.Errorf("mozilla.Parse: %v", err)
+		}
+		b, err := mozilla.Parse((&oneCRLModel{Records: m.Records[k:]}).encode())
+		if err != nil {
+			return nil, fmt.Errorf("mozilla.Parse: %v", err)
+		}
+		return mergeOneCRL(a, b), nil
+	}
+	lib, err := mozilla.Parse(m.encode())
+	if err != nil {
+		return nil, fmt.Errorf("mozilla.Parse: %v", err)
+	}
+	return lib, nil
+}
+
+// padSerials surrounds the serials of a list with decoys (never equal to avoid) and puts the
+// result in one of several orders: ascending, descending, shuffled, shuffled with duplicates.
+func padSerials(rng *rand.Rand, serials [][]byte, avoid int64) (out [][]byte, order string) {
+	out = append(out, serials...)
+	n := rng.IntN(7)
+	for i := 0; i < n; i++ {
+		var v int64
+		switch rng.IntN(3) {
+		case 0:
+			v = avoid + 1 + int64(rng.IntN(40))
+		case 1:
+			v = 256 + int64(rng.IntN(70000))
+		default:
+			v = 1 + int64(rng.IntN(300))
+		}
+		if v == avoid {
+			v++
+		}
+		out = append(out, serialBytes(v, rng.IntN(5) == 0))
+	}
+	val := func(b []byte) *big.Int { return new(big.Int).SetBytes(b) }
+	sortAsc := func() {
+		for i := 1; i < len(out); i++ {
+			for j := i; j > 0 && val(out[j]).Cmp(val(out[j-1])) < 0; j-- {
+				out[j], out[j-1] = out[j-1], out[j]
+			}
+		}
+	}
+	switch rng.IntN(4) {
+	case 0:
+		sortAsc()
+		order = "ascending"
+	case 1:
+		sortAsc()
+		for i, j := 0, len(out)-1; i < j; i, j = i+1, j-1 {
+			out[i], out[j] = out[j], out[i]
+		}
+		order = "descending"
+	case 2:
+		rng.Shuffle(len(out), func(i, j int) { out[i], out[j] = out[j], out[i] })
+		order = "shuffled"
+	default:
+		if len(out) > 0 {
+			out = append(out, out[rng.IntN(len(out))], out[rng.IntN(len(out))])
+		}
+		rng.Shuffle(len(out), func(i, j int) { out[i], out[j] = out[j], out[i] })
+		order = "shuffled+duplicates"
+	}
+	return
 }
